@@ -160,7 +160,7 @@ def run_inject(job):
 
 def run(ctx):
     ctx.rule = ("streams of 1..300 frames whose decode order is a GOP-consistent permutation of the display order (IDR_W_RADL / IDR_N_LP / "
-                "CRA with leading RASL/RADL pictures / BLA periods, P/B mini-GOPs up to depth 8 coded as pyramid, skewed tree, random "
+                "CRA with leading RASL/RADL pictures / BLA periods, P/B/non-IRAP-I mini-GOPs of up to 48 pictures (display/decode displacement beyond 16) coded as pyramid, skewed tree, random "
                 "permutation, increasing or decreasing, temporal ids 0..6, TSA/STSA/TRAIL_N/TRAIL_R types, POC LSB widths 4, 5, 8 (native) "
                 "and 16 with wrap-around, 1..4 slices per frame, EL present or not, AUD/parameter-set/SEI/EOS variations), each frame "
                 "tagged with a distinct valid RPU; extract-rpu (file / fragmented stdin, chunk sizes 64/257/4096/100000, -m 0..5) must "
@@ -194,8 +194,9 @@ def run(ctx):
     n_wrap = 4 if quick else 40
 
     def new_stream(r, nfr, pb, rp, **kw):
-        specs = H.gen_structure(r, nfr, poc_bits=pb, max_minigop=r.choice([1, 3, 8, 8, 15]), period_len=(1, r.choice([6, 24, 60])),
-                                irap_weights=kw.pop("irap_weights", None), max_lead=r.choice([0, 2, 4, 7]))
+        specs = H.gen_structure(r, nfr, poc_bits=pb, max_minigop=r.choice([1, 3, 8, 8, 15, 33, 48]), period_len=(1, r.choice([6, 24, 60, 100])),
+                                irap_weights=kw.pop("irap_weights", None), max_lead=r.choice([0, 2, 4, 7]),
+                                intra=r.choice([0, 0, 2, 5]))
         base = dict(aud=r.choice(["canonical", "any", "none", "mixed"]), params=r.choice(["irap", "first", "every", "mixed"]),
                     el=r.choice(["none", "none", "free", "parse"]), eos=r.choice(["none", "end", "mid", "every"]),
                     sc=r.choice(["four", "three", "mixed"]), tz=0, pad=(0, r.choice([4, 30])), max_slices=4,
@@ -218,7 +219,9 @@ def run(ctx):
         if any(f.ntype in (16, 17, 18) for f in st.specs):
             ctx.count("streams with BLA")
         depth = max(abs(k - d) for k, d in enumerate(st.display_order())) if st.specs else 0
-        ctx.count("max display/decode displacement=%s" % ("0" if depth == 0 else "1-3" if depth <= 3 else "4-7" if depth <= 7 else ">=8"))
+        ctx.count("max display/decode displacement=%s" % ("0" if depth == 0 else "1-3" if depth <= 3 else "4-7" if depth <= 7 else "8-16" if depth <= 16 else ">=17"))
+        if any(f.stype == H.SLICE_I and not (16 <= f.ntype <= 23) for f in st.specs):
+            ctx.count("streams with intra pictures that are not IRAP")
         ctx.count("periods>1" if st.specs[-1].period > 0 else "periods=1")
 
     # ---------------- extract
